@@ -143,3 +143,13 @@ CLAIMS["C10"] = ("other",
     "open finding.",
     "sympy is executed for real (lambdify contract trusted); array-valued/TF parameters not covered",
     "deductive VCs + concrete sympy executions + bounded stand-in", "DESIGN.md 5/C10")
+CLAIMS["C12"] = ("other",
+    "Proved for all values: Range/Ranges membership with tolerance; Device.validate_parameters returns normally only if every "
+    "(arbitrarily nested, flattened) value lies in an allowed range and raises ValueError otherwise / for unknown names; "
+    "Borealis.update_params leaves every compensated phase in [-pi/2, pi/2] and changes it only by the accumulated loop offset "
+    "modulo pi (3 loops x 2 time bins, everything symbolic; shape-bounded). Bounded stand-in: Xunitary/Xcov on generated source "
+    "programs (zero/missing/repeated squeezers on one, two, all pairs; identity/swap/Haar interferometers; both gate orders; "
+    "n = 4 quick, 4..8 thorough): X layout conformance, identical Gaussian state (Xunitary), identical photon statistics up to "
+    "local phases (Xcov), wrong-pair squeezers rejected. F15 found and repaired.",
+    "blackbird template matching / layout isomorphism not under contract; Takagi/mesh re-synthesis bounded only",
+    "deductive VCs (linear real/integer arithmetic) + bounded numeric stand-in", "DESIGN.md 5/C12")
